@@ -75,16 +75,16 @@ pub fn run(env: &mut Env, thorough: bool) {
 
         // positions (region boundaries) from which ranges are formed
         let mut pos: Vec<usize> = vec![];
-        let all = w_hi - w_lo <= if thorough { 64 } else { 24 };
+        let all = w_hi - w_lo <= if thorough { 40 } else { 24 };
         if all {
             pos.extend(w_lo..=w_hi);
         } else {
-            let near = if thorough { 20 } else { 9 };
+            let near = if thorough { 10 } else { 9 };
             let ends = if thorough { 5 } else { 2 };
             pos.extend(pb.saturating_sub(near).max(w_lo)..=(pb + near).min(w_hi));
             pos.extend(w_lo..=(w_lo + ends));
             pos.extend((w_hi - ends)..=w_hi);
-            for _ in 0..(if thorough { 12 } else { 4 }) {
+            for _ in 0..(if thorough { 8 } else { 4 }) {
                 pos.push(env.rng.range(w_lo as u64, w_hi as u64) as usize);
             }
             pos.sort_unstable();
@@ -95,7 +95,7 @@ pub fn run(env: &mut Env, thorough: bool) {
             for &e in &pos[i..] {
                 k += 1;
                 // region-aligned range [s, e)
-                if thorough {
+                if thorough && (pname == "word" || pname == "page") {
                     for op in OPS {
                         bulk(env, &h, op, s * r, (e - s) * r);
                     }
